@@ -65,6 +65,11 @@ def run_case(case):
         maps.append((mid, length, pos))
     filt = rnd.choice(('none', 'subset', 'superset', 'disjoint', 'empty'))
     ids = {'none': None, 'empty': [], 'subset': idpool[:max(1, nm // 2)], 'superset': idpool + [777], 'disjoint': [888, 999]}[filt]
+    if ids and random.Random(seed * 13 + 5).random() < 0.4:
+        # the option takes any list of ids: in any order and with repetitions (-qId 7 3 7)
+        r2 = random.Random(seed * 13 + 6)
+        ids = ids + [r2.choice(ids) for _ in range(r2.randint(1, 2))]
+        r2.shuffle(ids)
     text = make_text(maps, rnd, rnd.randint(0, 3), rnd.random() < 0.7, two_colour=rnd.random() < 0.15)
     bad = []
     got = None
@@ -126,7 +131,7 @@ def bounded(repo, tier, seed):
                                       required='C17 statement'))
     return result(sum(r[0] for r in res), sum(r[1] for r in res),
                   "generated CMAP text: 1-6 molecules with arbitrary ids (15% beyond 32 bits, two of them equal modulo 2**32), 15% two-colour files (labels on channel 1 or 2), 0-8 labels each (molecules with only an end-marker row included), coordinates with one "
-                  "decimal incl. duplicates, shuffled rows, 0-3 extra columns in varying positions, id filters none/empty/subset/superset/disjoint, through "
+                  "decimal incl. duplicates, shuffled rows, 0-3 extra columns in varying positions, id filters none/empty/subset/superset/disjoint (40% of the non-empty ones in shuffled order with repeated ids), through "
                   "readQueries/readReferences, compared with an independent parser; trim() applied to every map read; non-trivial = at least two labelled molecules expected",
                   [dict(seed=seeds[0]), dict(seed=seeds[1])], list(viol.values())[:5], exhaustive=False, bounds=f"{n} generated files")
 
